@@ -197,12 +197,20 @@ pub(crate) enum Expr {
 }
 
 impl Expr {
-    /// The variable at the root of an index / field access chain (`a` in `a[0].x[1]`), if there is one.
+    /// The variable at the root of an index / field access chain (`a` in `a[0].x[1]` and in `(get a).x`), if there is one.
+    /// `((a) or b)[0]` has two: a `const` one is returned if there is one.
     pub(crate) fn root_ident(&self) -> Option<&super::Ident> {
         match self {
-            Expr::Value(Value::Ident(ident)) => Some(ident),
+            Expr::Value(value) => value.root_ident(),
             Expr::Index { lhs_raw, .. } => lhs_raw.root_ident(),
             Expr::DotLookup { lhs, .. } => lhs.root_ident(),
+            Expr::UnaryUnwrap { value, .. } => value.root_ident(),
+            Expr::NilEval { primary, fallback } => {
+                match (primary.root_ident(), fallback.root_ident()) {
+                    (_, Some(root)) if root.is_const() => Some(root),
+                    (primary_root, fallback_root) => primary_root.or(fallback_root),
+                }
+            }
             _ => None,
         }
     }
